@@ -152,6 +152,12 @@ func (q *query) updateState(ctx context.Context, up *queryUpdate)
   ensures QI(q) && TOK(q) && !q.terminated
   ensures [token-consumed] allT(x, peer.ID, q.$out[x] == (old(q.$out[x]) && (x != up.cause || seedShape(q, up))))
   loop over up.heard invariant QI(q) && TOK(q) && q.$out == old(q.$out)
+  # C01: EVERY peer named in the processed response (other than this node) is
+  # learned - none is skipped, whatever its position in the response
+  loop over up.heard invariant [every-heard-peer-is-learned] all(j, 0, $key, imp(up.heard[j] != q.dht.self, q.queryPeers.$has[up.heard[j]])) && allT(x, peer.ID, imp(old(q.queryPeers.$has[x]), q.queryPeers.$has[x]))
+  loop over up.queried invariant all(j, 0, len(up.heard), imp(up.heard[j] != q.dht.self, q.queryPeers.$has[up.heard[j]]))
+  loop over up.unreachable invariant all(j, 0, len(up.heard), imp(up.heard[j] != q.dht.self, q.queryPeers.$has[up.heard[j]]))
+  ensures [every-heard-peer-is-a-member] all(j, 0, len(up.heard), imp(up.heard[j] != q.dht.self, q.queryPeers.$has[up.heard[j]]))
   loop over up.queried invariant QI(q) && TOK(q) && allT(x, peer.ID, q.$out[x] == (old(q.$out[x]) && (x != up.cause || $key == 0)))
   loop over up.unreachable invariant QI(q) && TOK(q) && allT(x, peer.ID, q.$out[x] == (old(q.$out[x]) && (x != up.cause || ($key == 0 && len(up.queried) == 0))))
   ghost at call(SetState): q.$out[$arg0] = false
@@ -375,6 +381,14 @@ func (dht *IpfsDHT) handleFindPeer(ctx context.Context, from peer.ID, pmes *pb.M
   ensures imp(result1 == nil, result0 != nil && len(result0.CloserPeers) <= dht.bucketSize + 1 && len(result0.ProviderPeers) == 0)
   ensures imp(result1 == nil, all(i, 0, len(result0.CloserPeers), result0.CloserPeers[i] != nil && pb.recBounded(result0.CloserPeers[i])))
   loop over closestinfos invariant len(withAddresses) <= $key
+  # the requester is excluded by closestPeersToQuery (it gets the REQUESTER's ID),
+  # and the requested peer itself is listed FIRST, the closer peers after it
+  ghostvar $cl []peer.ID = nil
+  ghost at before call(closestPeersToQuery): assert($arg0 == pmes && $arg1 == from && $arg2 == dht.bucketSize)
+  ghost at call(closestPeersToQuery): $cl = $ret0
+  ghost at before call(AddrInfos): assert(len($arg1) > 0 && $arg1[0] == targetPid && $arg0 == dht.peerstore)
+  ghost at before call(AddrInfos): assert(imp(len($cl) == 0 || $cl[0] != targetPid, len($arg1) == len($cl) + 1 && all(i, 0, len($cl), $arg1[i+1] == $cl[i])))
+  ghost at before call(AddrInfos): assert(imp(len($cl) > 0 && $cl[0] == targetPid, $arg1 == $cl))
 
 # the user-supplied address filter is assumed to have no effect on DHT state
 role f(addrs []ma.Multiaddr) []ma.Multiaddr in (dht *IpfsDHT) filterAddrs(addrs []ma.Multiaddr) []ma.Multiaddr
@@ -426,6 +440,7 @@ func (dht *IpfsDHT) handleGetValue(ctx context.Context, p peer.ID, pmes *pb.Mess
   ensures imp(result1 == nil, all(i, 0, len(result0.CloserPeers), result0.CloserPeers[i] != nil && pb.recBounded(result0.CloserPeers[i])))
   ghost at before call(Get): $k = $arg1
   ghost at call(Get): $rec = $ret0
+  ghost at before call(closestPeersToQuery): assert($arg0 == pmes && $arg1 == p && $arg2 == dht.bucketSize)
 
 func (dht *IpfsDHT) handleGetProviders(ctx context.Context, p peer.ID, pmes *pb.Message) (_ *pb.Message, _err error)
   props C09
@@ -434,6 +449,8 @@ func (dht *IpfsDHT) handleGetProviders(ctx context.Context, p peer.ID, pmes *pb.
   ensures imp(result1 != nil, result0 == nil)
   ensures imp(result1 == nil, result0 != nil && len(result0.CloserPeers) <= dht.bucketSize)
   ghost at before call(GetProviders): assert(len($arg1) >= 1 && len($arg1) <= 80); assert(len(resp.CloserPeers) <= dht.bucketSize && all(i, 0, len(resp.CloserPeers), resp.CloserPeers[i] != nil && pb.recBounded(resp.CloserPeers[i])))
+  ghost at before call(closestPeersToQuery): assert($arg0 == pmes && $arg1 == p && $arg2 == dht.bucketSize)
+  ghost at before call(GetProviders): assert($arg1 == pmes.Key)
 
 func (dht *IpfsDHT) handleAddProvider(ctx context.Context, p peer.ID, pmes *pb.Message) (_ *pb.Message, _err error)
   props C09 C07 C15
